@@ -2,8 +2,8 @@ package ledger
 
 import (
 	"fmt"
-	"strings"
 	"os"
+	"strings"
 	"sync"
 	"testing"
 
